@@ -538,6 +538,20 @@ func (e *Eval) model(fr *frame, x *ssa.Call, callee *ssa.Function, args []AV, st
 	if strings.HasSuffix(name, ".init") && len(args) == 0 {
 		return ret(TupleV{})
 	}
+	// library calls with an integer precondition whose violation panics
+	if name == "strings.Repeat" || name == "bytes.Repeat" {
+		if n, ok := args[1].(IntV); ok {
+			lo, _, okb := n.Bounds(fr.T())
+			switch {
+			case !okb:
+				e.event("P3", Undecided, x, "%s: count %v not shown to be non-negative (a negative count panics)", name, n)
+			case lo < 0:
+				e.event("P3", Violated, x, "%s: count can be negative (%v): panics", name, n)
+			default:
+				e.event("P3", Discharged, x, "%s: count >= %d", name, lo)
+			}
+		}
+	}
 	if !isReadOnly(name) {
 		for _, a := range args {
 			e.escape(fr, st, a, "passed to "+name)
